@@ -15,6 +15,14 @@ def _flt(tok):
     return struct.unpack("<d", struct.pack("<Q", int(tok[2:], 16)))[0]
 
 
+def _bigint(t):
+    """integers beyond 10**1000 travel as H<hex> (both sides print them that way)"""
+    neg = t.startswith("-")
+    body = t[1:] if neg else t
+    v = int(body[1:], 16) if body[:1] == "H" else int(body)
+    return -v if neg else v
+
+
 def tok_equal(a, b, rtol=FLOAT_RTOL):
     if a == b:
         return True
@@ -28,8 +36,8 @@ def tok_equal(a, b, rtol=FLOAT_RTOL):
             return True
         return abs(x - y) <= rtol * max(abs(x), abs(y))
     if a[:2] == "d:" and b[:2] == "d:" and "/" in a and "/" in b:
-        x = Fraction(*map(int, a[2:].split("/")))
-        y = Fraction(*map(int, b[2:].split("/")))
+        x = Fraction(*map(_bigint, a[2:].split("/")))
+        y = Fraction(*map(_bigint, b[2:].split("/")))
         if x == y:
             return True
         return abs(x - y) <= Fraction(max(DEC_RTOL, rtol)) * max(abs(x), abs(y))
